@@ -132,10 +132,13 @@ def flags(case, i):
 def alone(case, names, i):
     """fresh objects for everything (backend, pipeline, parsed rules); the rule on its own, in the same role it
     has in the collection: a correlation rule comes with the rules it refers to (nothing of them emitted); a
-    rule that is referred to comes with one stub correlation rule referring to it (generate = its output
-    switch), whose own output is dropped"""
+    rule whose output is switched off (it is only a building block of correlation rules: no query of its own,
+    fails only if the raw query cannot be produced) comes with one stub correlation rule referring to it
+    (generate: false), whose own output is dropped"""
     r = case["rules"][i]
     out, br = flags(case, i)
+    if out:
+        br = False      # an emitted rule is judged by the plain conversion on its own, whoever refers to it
     raw = []
     def cb(rule, fmt, index, cond, result):
         if rule.name == names[i]:
